@@ -1234,9 +1234,20 @@ def probe_after_crash(croot, calls, ci, j, t, bounds, flat, drv, tags):
                     mon.append({"cls": "committed-entry-unfaithful-after-crash",
                                 "what": f"committed name {nm!r} (entry {p}) comes back different in {bad}"})
         else:
-            if out[1] == "PendingTransactionError" and D[p]["key"] == cur_key and cur_in_txn:
+            # decided from the witness: the key the name's link points to (store_key never re-binds a name, so this
+            # may be the key of an earlier entry stored under that name) carries PENDING, was committed before the
+            # interrupted call, and the interrupted call is a transaction on it
+            link_key = None
+            try:
+                link_key = G["keys"].get(os.path.basename(os.readlink(croot / "ctx" / "models" / nm)))
+            except OSError:
+                pass
+            stale = link_key is not None and link_key == cur_key and cur_in_txn and link_key in committed_keys and \
+                (croot / "ctx" / ".modeldb" / digest_of_label(link_key) / ".pharmpy" / "PENDING").exists()
+            if out[1] == "PendingTransactionError" and stale:
                 mon.append({"cls": "stale-pending-blocks-committed-key",
-                            "what": f"name {nm!r}: interrupted later transaction on its key leaves PENDING behind"})
+                            "what": f"name {nm!r} (link to key {link_key}): interrupted later transaction on that committed key "
+                                    f"leaves PENDING behind"})
             elif ann_truncated and out[1] in ("KeyError", "IndexError"):
                 mon.append({"cls": "annotation-rewrite-not-atomic",
                             "what": f"committed name {nm!r} lost its annotation ({out[1]}): store_annotation truncates and rewrites "
